@@ -142,6 +142,10 @@ QB_OPS = {
     "for_update": lambda r: r.for_update(nowait=True),
     "for_update:of": lambda r: r.for_update(of=("x1", "zeta", "alpha", "m2")),
     "force_index": lambda r: r.force_index("fi", A(Index("fj"))),
+    "force_index:dup": lambda r: r.force_index("tenant", "region", "tenant", "id", "zone", "region"),
+    "for_update:of_dup": lambda r: r.for_update(of=("tenant", "region", "tenant", "id", "zone", "region")),
+    "select:dup": lambda r: r.select("tenant", "region", "tenant", "id", "zone", "region"),
+    "groupby:dup": lambda r: r.groupby("tenant", "region", "tenant", "id", "zone", "region"),
     "use_index": lambda r: r.use_index("ui"),
     "with_": lambda r: r.with_(sub_(), "c2"),
     "into": lambda r: r.into(A(Table("x"))),
@@ -157,6 +161,7 @@ QB_OPS = {
     "update": lambda r: r.update(Table("x")),
     "set": lambda r: r.set("c", 7),
     "set:f": lambda r: r.set(A(t_().d), A(t_().e + 1)),
+    "set:redef": lambda r: r.set("c", 8).set(t_().a, 2).set("b", "y"),  # columns that seeds / other ops already assign
     "delete": lambda r: r.delete(),
     "union": lambda r: r.union(A(Query.from_(Table("w")).select("q"))),
     "union_all": lambda r: r.union_all(Query.from_(Table("w")).select("q")),
@@ -198,9 +203,15 @@ CREATE_OPS = {
     "with_system_versioning": lambda r: r.with_system_versioning(),
     "columns:str": lambda r: r.columns("k1", ("k2", "INT")),
     "columns:col": lambda r: r.columns(A(Column("k3", "TEXT", nullable=True, default="d"))),
+    # the same column names again with another definition (k1/k2 of "columns:str", a/c of the full seed)
+    "columns:redef": lambda r: r.columns(("k1", "BIGINT"), A(Column("a", "TEXT", nullable=True)), Column("k2", "DATE", default="x"), "c"),
     "period_for": lambda r: r.period_for("pp", "k1", A(Column("k2"))),
     "unique": lambda r: r.unique("k1", A(Column("k2"))),
     "primary_key": lambda r: r.primary_key("k1"),
+    # repeated names (whatever the builder does with them must not depend on the iteration order of a set)
+    "unique:dup": lambda r: r.unique("tenant", "region", "tenant", "id", "k1", "region"),
+    "primary_key:dup": lambda r: r.primary_key("tenant", "region", "tenant", "id", "zone", "region"),
+    "columns:dup": lambda r: r.columns("tenant", "region", "tenant", "id", "zone", "region"),
     "as_select": lambda r: r.as_select(sub_()),
     "if_not_exists": lambda r: r.if_not_exists(),
 }
@@ -306,6 +317,8 @@ def chunks(tier, seed):
                 d = fam[3:]
                 if d in QUICK_LIGHT and sname not in QUICK_LIGHT[d]:
                     continue
+                if sname in ("sel_lits", "upd_lits") and d != "generic":
+                    continue  # constant-wrapping seeds: all dialects in thorough and in the C02 / C15 corpora
             keys = list(ops)
             if not keys:
                 continue
